@@ -37,9 +37,19 @@ type Obs struct {
 // must not depend on wall-clock time).
 var ClockSkewDir string
 
+// MempoolSkew makes every second replica run CheckTx on a transaction before DeliverTx (as a
+// validator whose mempool saw the transaction does) while the others only execute the block:
+// results must not depend on a node's mempool history (C09).
+var MempoolSkew bool
+
+// RestartSkew makes the LAST replica a node that is stopped after every Commit and restarted
+// from its state file (results must not depend on the process, C09); needs ClockSkewDir.
+var RestartSkew bool
+
 func (u *Universe) NewReplica() (*Replica, Obs) {
 	r := &Replica{App: app.NewShutterApp()}
 	r.App.InitChain(u.InitChainRequest())
+	r.App.DevMode = u.C.Genesis.Dev // set from the chain configuration when a node starts
 	bb := r.App.BeginBlock(abcitypes.RequestBeginBlock{Header: header(1)})
 	return r, Obs{Events: []J{}, Updates: []J{}, Begin: u.AbsEvents(bb.Events, 1), St: u.Abs(r.App)}
 }
@@ -246,7 +256,28 @@ func (u *Universe) RunTrie(behaviours [][]int, alphabet []Op, R int, tw *TraceWr
 						r.App.LastSaved = time.Now() // timer just restarted: this replica does not save
 					}
 				}
-				all = append(all, u.Exec(r, o.Op, tx))
+				if MempoolSkew && o.Op == "tx" && ri%2 == 1 {
+					u.Exec(r, "chk", tx)
+				}
+				obsR := u.Exec(r, o.Op, tx)
+				if MempoolSkew && o.Op == "tx" && ri%2 == 1 && obsR.St != nil {
+					// the mempool bookkeeping is node-local by design (reset at every Commit): it is
+					// the one part of the state replicas need not agree on between commits
+					zc, zn := J{}, J{}
+					for _, a := range u.C.Addrs {
+						zc[a], zn[a] = 0, []uint64{}
+					}
+					obsR.St["ctCounts"], obsR.St["ctNonces"] = zc, zn
+				}
+				if RestartSkew && ClockSkewDir != "" && o.Op == "end" && ri == len(reps)-1 && len(reps) > 1 && obsR.Panic == "" {
+					r.App.LastSaved = time.Now().Add(-time.Hour)
+					if err := r.App.PersistToDisk(); err == nil {
+						if loaded, err := app.LoadShutterAppFromFile(r.App.Gobpath); err == nil {
+							r.App = &loaded
+						}
+					}
+				}
+				all = append(all, obsR)
 				st.Steps++
 			}
 			ds := distinct(all)
